@@ -66,6 +66,10 @@ impl KOp {
                     v.push((self.addr as usize, std::mem::size_of::<libc::msghdr>()));
                     v.push((m.msg_name as usize, m.msg_namelen as usize));
                     v.push((m.msg_control as usize, m.msg_controllen));
+                } else {
+                    // the header and the destination are copied when the request is prepared; the control data is
+                    // read from user memory when the message is sent (io_uring/net.c: io_sendmsg -> ____sys_sendmsg)
+                    v.push((m.msg_control as usize, m.msg_controllen));
                 }
                 if !select {
                     iovs(m.msg_iov as usize, m.msg_iovlen, &mut v);
